@@ -61,11 +61,20 @@ func (vi *variantImporter) Import(path string) (*types.Package, error) {
 	if p, ok := vi.mods[path]; ok {
 		return p, nil
 	}
-	if p, ok := vi.dc.deps[path]; ok {
-		return p, nil
+	if p, ok := vi.dc.deps[path]; ok && p.Complete() && p.Name() != "" {
+		return p, nil // (an indirect dependency is only a stub in the export data of its importers)
 	}
 	if path == "unsafe" {
 		return types.Unsafe, nil
+	}
+	// an import the pinned tree does not have (a variant added one): load its export data on demand
+	if !strings.HasPrefix(path, modPath) {
+		cfg := &packages.Config{Mode: packages.NeedName | packages.NeedTypes | packages.NeedImports, Dir: vi.dc.base.Dir,
+			Env: append(os.Environ(), "GOFLAGS=-mod=mod", "GOPROXY=off", "GOSUMDB=off", "GOTOOLCHAIN=local", "GOWORK=off")}
+		if ps, err := packages.Load(cfg, path); err == nil && len(ps) == 1 && ps[0].Types != nil && len(ps[0].Errors) == 0 {
+			vi.dc.deps[path] = ps[0].Types
+			return ps[0].Types, nil
+		}
 	}
 	return nil, fmt.Errorf("import %q not available in the dependency cache", path)
 }
@@ -126,6 +135,9 @@ func (dc *depCache) worldFromOverlay(repo, overlayDir string) (*World, error) {
 			Instances: map[*ast.Ident]types.Instance{}, FileVersions: map[*ast.File]string{}}
 		var terr error
 		conf := types.Config{Importer: vi, Sizes: types.SizesFor("gc", "amd64"), GoVersion: "go1.22", Error: func(e error) {
+			if os.Getenv("HWCHECK_DEBUG") != "" {
+				fmt.Fprintln(os.Stderr, "TYPE-ERROR", e)
+			}
 			if terr == nil {
 				terr = e
 			}
